@@ -79,8 +79,7 @@ CHECKS = {
                 jobs=lambda t: J("jsonenum", "prod-hsw", ["--prop", "C03"]) + J("jsonenum", "asan-wsm" if t == "thorough" else "prod-wsm", ["--prop", "C03"]),
                 rule="every accepted text: document compared with the reference tree through the public accessors only (type tests, Size, iteration order incl. duplicates, string bytes, number kind and bits, FindMember first match, operator[], AtPointer). Non-trivial: accepted text whose root is a container or longer than 4 bytes."),
     "C10": dict(level="exploration", engine="ondemand",
-                jobs=lambda t: J("ondemand", "prod-hsw", ["--prop", "C10"]) + J("ondemand", "asan-hsw", ["--prop", "C10"]) +
-                (J("ondemand", "prod-wsm", ["--prop", "C10"]) if t == "thorough" else []),
+                jobs=lambda t: J("ondemand", "prod-hsw", ["--prop", "C10"]) + J("ondemand", "asan-hsw", ["--prop", "C10"]) + J("ondemand", "prod-wsm", ["--prop", "C10"]),
                 rule="differential: for every valid text x pointer path, GetOnDemand succeeds <=> AtPointer on the fully parsed document resolves (and the reference lookup agrees); on success the slice lies inside the input and parses to the identical value, ParseOnDemand yields it; on failure error != 0, slice empty, ParseOnDemand errors and stays null. Evaluations count (text,path) pairs."),
     "C11": dict(level="exploration", engine="ondemand",
                 jobs=lambda t: J("ondemand", "asan-hsw", ["--prop", "C11"]) + J("ondemand", "prod-hsw", ["--prop", "C11"]) +
@@ -244,10 +243,12 @@ def run_job(job, binpath, tier, deadline, outpath):
     return json.load(open(outpath)), dt
 
 
-def replay_case(binpath, job, tier, family, idx):
+def replay_case(binpath, job, tier, family, idx, replay_from=None):
     env = dict(os.environ)
     env.update(job["env"])
     cmd = [binpath, "--tier", tier] + job["args"] + ["--replay", family, str(idx)]
+    if replay_from is not None:
+        cmd += ["--replay-from", str(replay_from)]
     p = subprocess.run(cmd, env=env, stdout=subprocess.PIPE, stderr=subprocess.STDOUT, text=True, timeout=600)
     return p.returncode, p.stdout
 
@@ -258,7 +259,7 @@ def write_replay(prop, job, tier, v, output):
     path = os.path.join(REPLAYS, "%s-%s.json" % (prop, key))
     rec = dict(property=prop, engine=job["engine"], config=job["config"], label=job["label"], tier=tier, args=job["args"], env=job["env"],
                family=v["family"], index=v["idx"], kind=v["kind"], cls=v["class"], input_hex=v.get("input_hex", ""), detail=v["detail"],
-               replay_output_tail=output[-3000:], ref_job=v.get("ref_job"))
+               replay_output_tail=output[-3000:], ref_job=v.get("ref_job"), replay_from=v.get("replay_from"))
     json.dump(rec, open(path, "w"), indent=1)
     return path
 
@@ -354,6 +355,14 @@ def do_check(prop, tier):
             code, out = 1, v["detail"]
         else:
             code, out = replay_case(bins[(job["engine"], job["config"])], job, tier, v["family"], v["idx"]) if v["idx"] != 18446744073709551615 else (1, "(crash outside a case)")
+        if code == 0 and not v.get("no_replay") and v.get("chunk_begin") is not None and v["chunk_begin"] < v["idx"] and v["idx"] - v["chunk_begin"] <= 1 << 20:
+            # not reproducible alone: a defect that carries state from one call to the next needs the
+            # cases that ran before it in the same worker chunk; replay that sequence in one process
+            code, out = replay_case(bins[(job["engine"], job["config"])], job, tier, v["family"], v["idx"], replay_from=v["chunk_begin"])
+            if code != 0:
+                v = dict(v)
+                v["replay_from"] = v["chunk_begin"]
+                v["detail"] = "[needs the preceding cases %d..%d of its chunk in the same process] " % (v["chunk_begin"], v["idx"] - 1) + v["detail"]
         if code == 0:
             # replay must reproduce, otherwise this is a harness problem, not a verdict
             print("INTERNAL-ERROR property=%s violation did not reproduce on replay: %s %s idx=%s class=%s" % (prop, job["label"], v["family"], v["idx"], v["class"]))
@@ -434,7 +443,7 @@ def do_replay(path):
         print("REPLAY exit=%d (non-zero: the two configurations still disagree on this case)" % (1 if differ else 0))
         return 1 if differ else 0
     bins = build_many([(job["engine"], job["config"])])
-    code, out = replay_case(bins[(job["engine"], job["config"])], job, rec["tier"], rec["family"], rec["index"])
+    code, out = replay_case(bins[(job["engine"], job["config"])], job, rec["tier"], rec["family"], rec["index"], replay_from=rec.get("replay_from"))
     sys.stdout.write(out[-6000:])
     print("REPLAY exit=%d (non-zero: the recorded case still violates property %s)" % (code, rec["property"]))
     return 1 if code != 0 else 0
